@@ -84,15 +84,17 @@ def lib_tla():
 
 
 def terms_tla(tier):
-    base = [_bare(n) for n in ("G1", "A", "B", "C", "D", "E")]
     A, B, C, D, E, G1 = _bare("A"), _bare("B"), _bare("C"), _bare("D"), _bare("E"), _bare("G1")
+    base = [G1, A, B, C, D, E]
     t = list(base)
-    t += [f"Adj({b})" for b in base] + [f"Ctrl({b}, 1)" for b in (A, B, C)] + [f"Pow({b}, {z})" for b in (A, B, C) for z in (2, 3)]
+    t += [f"Adj({b})" for b in (A, B, C, D)] + [f"Ctrl({C}, 1)", f"Pow({B}, 3)", f"Pow({C}, 2)"]
     t += [f"Adj(Adj({C}))", f"Ctrl(Ctrl({A}, 1), 2)", f"Adj(Pow({C}, 2))", f"Ctrl(Adj({C}), 2)", f"Pow(Pow({B}, 2), 2)",
-          f"Prod(<< <<{A}, 2>>, <<{G1}, 1>> >>)", f"Prod(<< <<{B}, 1>>, <<{C}, 3>> >>)", f"Adj(Prod(<< <<{C}, 1>>, <<{B}, 2>> >>))",
+          f"Prod(<< <<{A}, 2>>, <<{G1}, 1>> >>)", f"Adj(Prod(<< <<{C}, 1>>, <<{B}, 2>> >>))",
           f"Ctrl(Prod(<< <<{D}, 2>>, <<{A}, 1>> >>), 1)", f"Pow(Prod(<< <<{A}, 1>>, <<{B}, 1>> >>), 2)", f"Adj(Ctrl(Adj({E}), 1))"]
     if tier != "quick":
+        t += [f"Adj({b})" for b in (G1, E)] + [f"Ctrl({b}, 1)" for b in (A, B)] + [f"Pow({A}, 2)", f"Pow({A}, 3)", f"Pow({B}, 2)", f"Pow({C}, 3)"]
         t += [f"Ctrl({b}, 2)" for b in (D, E)] + [f"Pow({E}, 2)", f"Adj(Ctrl(Pow({C}, 2), 1))", f"Pow(Adj({B}), 3)",
+                                                  f"Prod(<< <<{B}, 1>>, <<{C}, 3>> >>)",
                                                   f"Prod(<< <<Adj({C}), 1>>, <<Ctrl({B}, 1), 2>>, <<{E}, 1>> >>)"]
     return t
 
@@ -103,9 +105,10 @@ def wf_cfgs(tier):
     return "{" + ", ".join(f"[z |-> {z}, a |-> {a}, algo |-> 0, tight |-> {t}, gs |-> {gs}]" for z, a, t in budgets for gs in gss) + "}"
 
 
-def wm_cfgs():
-    return "{" + ", ".join(f"[z |-> {z}, a |-> {a}, algo |-> 3, tight |-> {t}, gs |-> {{}}]"
-                           for z in (0, 2) for a in (0, 1) for t in ("TRUE", "FALSE")) + "}"
+def wm_cfgs(tier):
+    zs = [(0, 0, "FALSE"), (2, 1, "TRUE"), (2, 0, "FALSE"), (0, 1, "TRUE")] if tier == "quick" else \
+        [(z, a, t) for z in (0, 2) for a in (0, 1) for t in ("TRUE", "FALSE")]
+    return "{" + ", ".join(f"[z |-> {z}, a |-> {a}, algo |-> 3, tight |-> {t}, gs |-> {{}}]" for z, a, t in zs) + "}"
 
 
 def build(t):
@@ -399,20 +402,18 @@ def run(tier, seed):
               "Names": "{" + ",".join(f'"{n}"' for n in WIDTH) + "}"}
     inv = ["NonNeg", "TotalGeAlgo", "Accounted"]
     # ---------------------------------------------------------------- (M) + generators
-    g_wm = lib.run_tlc_mc("EstimatorGen", dict(common, Cfgs=wm_cfgs(), Terms="{}", Amounts="{1,2,3}" if quick else "{0,1,2,3}"),
-                          lib.workdir("C47", "wm"), constants={"MaxEvents": 4 if quick else 5, "MaxLen": 1}, init="InitWM", next_="NextWM",
-                          invariants=inv, constraints=["EmitWM"], timeout=3000)
-    if g_wm.invariant_violated:
-        raise lib.MachineryError(f"Estimator.tla: the documented Grab/Free semantics violates {g_wm.invariant_violated}: " + g_wm.out[-1500:])
-    lib.require_ok(g_wm, "EstimatorGen (wm)")
     terms = terms_tla(tier)
-    g_wf = lib.run_tlc_mc("EstimatorGen", dict(common, Cfgs=wf_cfgs(tier), Terms="{" + ", ".join(terms) + "}", Amounts="{}"),
-                          lib.workdir("C47", "wf"), constants={"MaxEvents": 0, "MaxLen": 2}, init="InitWF", next_="NextWF",
-                          invariants=inv + ["Additive", "TermLaws"], timeout=3000)
-    if g_wf.invariant_violated:
-        raise lib.MachineryError(f"Estimator.tla violates its own law {g_wf.invariant_violated} (oracle error): " + g_wf.out[-1500:])
-    lib.require_ok(g_wf, "EstimatorGen (wf)")
-    hists, cases = g_wm.json_lines, g_wf.json_lines
+    g = lib.run_tlc_mc("EstimatorGen", dict(common, WMCfgs=wm_cfgs(tier), WFCfgs=wf_cfgs(tier), Terms="{" + ", ".join(terms) + "}",
+                                            Amounts="{1,2,3}" if quick else "{0,1,2,3}"),
+                       lib.workdir("C47", "gen"), constants={"MaxEvents": 4 if quick else 5, "MaxLen": 2}, init="InitAll", next_="NextAll",
+                       invariants=inv + ["Additive", "TermLaws"], constraints=["EmitWM"], timeout=3000)
+    if g.invariant_violated:
+        raise lib.MachineryError(f"Estimator.tla violates its own invariant {g.invariant_violated} (oracle error): " + g.out[-1500:])
+    lib.require_ok(g, "EstimatorGen")
+    hists = [x for x in g.json_lines if "calls" in x]
+    cases = [x for x in g.json_lines if "wf" in x]
+    if len(hists) < 1000 or len(cases) < 1000:
+        raise lib.MachineryError(f"generators produced too few cases ({len(hists)}, {len(cases)})")
     tick(f"generators done: {len(hists)} histories, {len(cases)} workflows")
     if len(hists) < 1000 or len(cases) < 1000:
         raise lib.MachineryError(f"generators produced too few cases ({len(hists)}, {len(cases)})")
@@ -477,6 +478,7 @@ def run(tier, seed):
                     got[base_of(k)] += int(v)
                 got = {k: v for k, v in got.items() if v}
                 st["wf_compared"] += 1
+                st["wf_with_created_wires"] += case["fin"]["z"] + case["fin"]["a"] > c["z"] + c["a"]
                 if got != exp_counts:
                     flag("estimate:gate-counts-not-sum-of-parts",
                          f"workflow [{label}] gate set +{c['gs']} ({form}): counts {got}, the sum over the parts is {exp_counts}",
@@ -490,7 +492,6 @@ def run(tier, seed):
                     nontriv.add((label, json.dumps(c, sort_keys=True)))
                     if len(samples) < 2 and len(wf) == 2 and len(grabs) >= 3 and ci % 7 == 0:
                         samples.append({"workflow": label, "cfg": c, "expected_counts": exp_counts, "wires": case["fin"], "events": len(evs)})
-                st["wf_with_created_wires"] += res.zeroed_wires + res.any_state_wires > c["z"] + c["a"]
         # negative control of the comparator: a corrupted expectation must be noticed
         probe = next(x for x in cases if x["err"] == "" and len(x["wf"]) == 2 and sum(1 for v in x["counts"].values() if v) >= 2)
         res, _, _ = rec.run(lambda: qre.estimate(lambda: [build(t) for t in probe["wf"]], gate_set=closure | set(probe["cfg"]["gs"]),
@@ -534,19 +535,26 @@ def run(tier, seed):
     w2 = [list(x) for x in srca["whole"]]
     w2[0][1] += 1
     add_neg(dict(srca, whole=w2), "additivity")
+    # identical records (e.g. the two call forms of one workflow) are validated once
+    uniq, slot = {}, []
+    for rcd in allrecs:
+        key = json.dumps(rcd, sort_keys=True)
+        slot.append(uniq.setdefault(key, len(uniq)))
+    ulist = [json.loads(k) for k in uniq]
     wd = lib.workdir("C47", "trace")
-    (wd / "traces.json").write_text(json.dumps(allrecs))
-    r = lib.run_tlc("Trace_Estimator", lib.cfg(init="TInit", next_="TNext", constants={"NTRACES": len(allrecs), "Lib": 0, "Width": 0}), wd,
-                    env={"TRACE_FILE": str(wd / "traces.json")}, timeout=3000)
+    (wd / "traces.json").write_text(json.dumps(ulist))
+    r = lib.run_tlc_mc("Trace_Estimator", {"Lib": "<<>>", "Width": "<<>>"}, wd, constants={"NTRACES": len(ulist)}, init="TInit", next_="TNext",
+                       env={"TRACE_FILE": str(wd / "traces.json")}, timeout=3000)
     lib.require_ok(r, "Trace_Estimator")
     tick("trace validation done")
-    verd = {t[1] - 1: (t[2], t[3]) for t in r.tuples if t[0] == "V"}
-    if len(verd) != len(allrecs):
-        raise lib.MachineryError(f"verdicts not total: {len(verd)} of {len(allrecs)}")
+    uverd = {t[1] - 1: (t[2], t[3]) for t in r.tuples if t[0] == "V"}
+    if len(uverd) != len(ulist):
+        raise lib.MachineryError(f"verdicts not total: {len(uverd)} of {len(ulist)}")
+    verd = {i: uverd[slot[i]] for i in range(len(allrecs))}
     for i, expect in neg:
         if verd[i][0] != expect:
             raise lib.MachineryError(f"negative control '{expect}' not rejected by Trace_Estimator (verdict {verd[i]})")
-    for i, (kind, a, b, c) in enumerate(allmeta):
+    for i, (kind, a, b, c, *_) in enumerate(allmeta):
         if kind == "NEG":
             continue
         v, d = verd[i]
@@ -578,11 +586,11 @@ def run(tier, seed):
             "wf_expected_errors_free": 10, "library_estimates_with_allocations": 100, "library_estimates_beyond_budget": 20,
             "library_estimates_raising": 5, "additivity_records": 200, "combination_records": 50}
     for k, v in need.items():
-        if st[k] < v:
+        if st[k] < v and not viol:                      # reported violations take precedence over a vacuity complaint
             raise lib.MachineryError(f"vacuous: '{k}' = {st[k]} < {v}")
-    if drift["error_status"] > len(cases) // 10:
+    if drift["error_status"] > len(cases) // 10 and not viol:
         raise lib.MachineryError(f"the model's allocation errors disagree with the code on {drift['error_status']} workflows: comparison would be vacuous")
-    cov = {"states": g_wm.distinct + g_wf.distinct + r.distinct, "transitions": g_wm.generated + g_wf.generated + r.generated,
+    cov = {"states": g.distinct + r.distinct, "transitions": g.generated + r.generated,
            "traces_validated_against_impl": len(allrecs) - len(neg), "evaluations": n_eval + st["library_estimates"] + st["additivity_records"],
            "distinct_nontrivial": len(nontriv),
            "rule": "TLC enumerates every workflow of <= 2 terms over the term set (composites with allocations, adjoint / controlled / pow / prod "
@@ -591,9 +599,9 @@ def run(tier, seed):
                    "agreed, plus distinct seeded library workflows with >= 2 parts whose additivity record TLC accepted",
            "samples": samples, "exhaustive": True,
            "model": {"module": "Estimator / EstimatorGen", "invariants": inv + ["Additive", "TermLaws"], "manager_histories": len(hists),
-                     "workflows": len(cases), "terms": len(terms), "states_wm": g_wm.distinct, "states_wf": g_wf.distinct},
+                     "workflows": len(cases), "terms": len(terms), "states": g.distinct},
            "model_drift": dict(drift), "negative_controls_rejected": neg_cmp + len(neg),
-           "tlc_wall_s": [round(g_wm.wall_s, 1), round(g_wf.wall_s, 1), round(r.wall_s, 1)], **{k: int(v) for k, v in st.items()}}
+           "distinct_trace_records": len(ulist), "tlc_wall_s": [round(g.wall_s, 1), round(r.wall_s, 1)], **{k: int(v) for k, v in st.items()}}
     return CheckResult(coverage=cov, violations=viol, assumptions=[
         "the replayed operators are harness-defined ResourceOperator subclasses whose decompositions are the spec's Lib table; adjoint / "
         "controlled wrappers of leaves are members of the gate set (counts are compared per base gate)",
